@@ -425,6 +425,18 @@ Theorem C13_signer_signs_what_verifier_checks_examples :
 Proof. exact P_Signer.SignerExample.signer_signs_what_verifier_checks_examples. Qed.
 Print Assumptions C13_signer_signs_what_verifier_checks_examples.
 
+(* the digest input of an exclusive canonicaliser: Canonicalize REWRITES the element and serialises it; the model asks
+   canon_model about the rewritten element el' (a second transformation).  On a built AuthnRequest, for four exclusive
+   configurations: the second transformation is the identity and the digest input is c14n_write el' (on every case of the
+   correspondence run the digest input is compared with the bytes the library hashed) *)
+Theorem C13_digest_input_exclusive_rewrite_idempotent_examples :
+  P_Signer.SignerExample.rewrite_idempotent (Some (CanonExc [] false)) = true /\
+  P_Signer.SignerExample.rewrite_idempotent (Some (CanonExc [] true)) = true /\
+  P_Signer.SignerExample.rewrite_idempotent (Some (CanonExc ["saml"] false)) = true /\
+  P_Signer.SignerExample.rewrite_idempotent (Some (CanonExc ["saml"; "xs"] true)) = true.
+Proof. exact P_Signer.SignerExample.exclusive_rewrite_is_idempotent_examples. Qed.
+Print Assumptions C13_digest_input_exclusive_rewrite_idempotent_examples.
+
 (* (a) is FALSE without "the identifier names the canonicaliser object": exclusive canonicaliser built with the prefix list
    "saml" (known finding exc-prefix-list).  The signer keeps xmlns:saml on the detached ds:SignedInfo, the verifier drops
    it: other bytes; the message signed by the modelled signer is rejected *)
